@@ -315,8 +315,8 @@ func c09RvoleFaults[S algebra.PrimeFieldElement[S]](c *Ctx, r *Rng, run *rvRun[S
 	var faults []rvFault
 	nAT, nEta, nMu := 24, run.rho, 3
 	if c.Thorough() {
-		nAT = 400
-		nMu = 16
+		nAT = 300
+		nMu = 8
 	}
 	for n := 0; n < nAT; n++ {
 		j, i := r.IntN(run.xi), r.IntN(L)
@@ -343,7 +343,7 @@ func c09RvoleFaults[S algebra.PrimeFieldElement[S]](c *Ctx, r *Rng, run *rvRun[S
 	}
 	chkBudget := 6
 	if c.Thorough() {
-		chkBudget = 40
+		chkBudget = 12
 	}
 	for fi, flt := range faults {
 		at, eta, mu := cloneMat(run.aTilde), slices.Clone(run.eta), slices.Clone(run.mu)
